@@ -18,15 +18,21 @@ CHECKS = {
          "clauses on final releases and Maven VersionRange over structured requirement templates; Cargo VersionReq is not decided", "§7 C03, §11"),
  "C04": ("every implicit panic check and loop bound on every feasible path of the text entry points of util/semver (9 systems), util/pypi and the "
          "PyPI marker parser, inputs = all byte strings up to the stated lengths", "§7 C04, §11"),
- "C05": ("PyPI resolver only: client-unchanged and ask-twice clauses on a universe with symbolic marker thresholds (whole Resolve executed "
-         "symbolically); npm/Maven, insertion order and concurrency are not decided", "§7 C05, §11"),
- "C06": ("graph clauses (edge satisfies requirement, every non-dev non-peer requirement resolved or reported, reachability, fresh-install choice) "
-         "asserted on the real npm Resolve over skeleton universes with symbolic version numbers; the install-tree clauses are not decided", "§7 C06, §11"),
+ "C05": ("sequential clauses for all three resolvers (whole Resolve executed symbolically on skeleton universes): the client reports the same "
+         "requirements and versions in the same order after Resolve; asking again, resolving another root in between on the same resolver and "
+         "inserting the versions in the opposite order give the same graph; plus the PyPI getDependencies/matching-prereleases call sites. "
+         "Concurrent Resolve calls are not decided (the engine has no scheduler)", "§7 C05, §11"),
+ "C06": ("graph clauses (edge satisfies requirement, every non-dev non-peer requirement resolved or reported, reachability, fresh-install choice "
+         "for every node) and, through the verif-tagged hook, the install-tree clauses (tree nodes = graph nodes, no directory holds one name twice, "
+         "Node's walk-up lookup lands on the edge's target) asserted on the real npm Resolve over skeleton universes (3-4 packages, <=3 versions, two "
+         "requirement slots per version, optional/dev/peer/bundle-scoped kinds, aliases) with symbolic digits in versions or requirements; bundled "
+         "(derived) packages are not generated", "§7 C06, §11"),
  "C07": ("unit lemmas (findMatch preference order, exclusions, root-only scopes, artifact identity) plus the real Maven Resolve over skeleton "
          "universes with symbolic version numbers (one version per artifact, ranges respected, root-only scopes, war not traversed, management "
          "override, nearest-wins on soft-only skeletons)", "§7 C07, §11"),
- "C08": ("unit lemmas of the PyPI resolver state (criteria, versionMap, intersect, filterSlice, copy independence); the whole-solution clauses "
-         "are not decided", "§7 C08, §11"),
+ "C08": ("unit lemmas of the PyPI resolver state (criteria, versionMap, intersect, filterSlice, copy independence) plus the real PyPI Resolve over "
+         "skeleton universes with symbolic version numbers, specifier numbers and marker thresholds (one version per package, true-marker requirements "
+         "are edges to satisfying versions, false-marker ones contribute nothing, reachability, root kept)", "§7 C08, §11"),
  "C09": ("membership laws of the real Union/Intersect/canon/matchVersion over constraint templates with symbolic digits (Default, NPM, Cargo, Go)", "§7 C09, §11"),
  "C10": ("Parse -> Canon -> Parse -> compare/Canon on all byte strings up to the stated length, plus same-canon-implies-equal on pairs", "§7 C10, §11"),
  "C11": ("Set.String -> ParseSetConstraint round trip (text identity and prerelease-inclusive matching) over constraint templates (Default, NPM, Cargo, Go, NuGet)", "§7 C11, §11"),
@@ -70,9 +76,9 @@ def main():
         "setup_cmd": "cd /verif/engine && GOFLAGS=-mod=mod GOPROXY=off GOSUMDB=off GOTOOLCHAIN=local go build -o /verif/bin/gosym .",
         "hooks": {
             "guard": "verif",
-            "enable": "no hooks are compiled into /repo: harnesses are injected with go/packages overlays (engine) and go test -overlay (native replay)",
+            "enable": "build tag `verif` (go/packages BuildFlags -tags=verif in the engine, go test -tags verif in native replay) for util/resolve/npm only: verif_hook.go hands the final install tree of npm Resolve to a callback; without the tag verif_nohook.go makes the one call at the end of Resolve a no-op. Harnesses themselves are never compiled into /repo: they are injected with go/packages overlays (engine) and go test -overlay (native replay)",
             "baseline_off_cmd": "for m in api/v3 api/v3alpha util/semver util/pypi util/maven util/resolve; do (cd /repo/$m && GOFLAGS=-mod=mod GOPROXY=off go test -vet=off -count=1 ./...) || exit 1; done",
-            "source_commits": [],
+            "source_commits": ["64956cb"],
             "add_only": True,
         },
         "engines": [{"name": "gosym", "path": "/verif/engine", "serves_properties": sorted(c["property_id"] for c in checks),
